@@ -8,185 +8,7 @@ verus! {
 
 global size_of usize == 8;
 
-#[verifier::external_type_specification]
-#[verifier::external_body]
-pub struct ExIoError(std::io::Error);
-
-//@ item struct DFAState src=src/automata.rs
-
-// ---------------------------------------------------------------- the compiled UTF-8 automaton, as an abstract DFA
-// N18: `static UTF8DFA: LazyLock<DFA<()>>` is replaced by a stand-in whose three operations are specified by
-// uninterpreted functions (start state, transition function, accepting set). What the decoder below does is proved for
-// EVERY such automaton that accepts within four bytes; that the compiled automaton is the UTF-8 one is C15's subject.
-pub uninterp spec fn dfa_start() -> DFAState;
-pub uninterp spec fn dfa_delta(s: DFAState, b: u8) -> Option<DFAState>;
-pub uninterp spec fn dfa_accepting(s: DFAState) -> bool;
-// number of bytes consumed since the start state
-pub uninterp spec fn dfa_depth(s: DFAState) -> nat;
-
-// assumed about the automaton: states are layered by the number of bytes read, and a sequence that is still
-// incomplete has at most three bytes (UTF-8 encodes a scalar value in at most four)
-#[verifier::external_body]
-pub proof fn axiom_dfa_depth(s: DFAState, b: u8)
-    ensures
-        dfa_depth(dfa_start()) == 0,
-        dfa_delta(s, b) matches Some(t) ==> dfa_depth(t) == dfa_depth(s) + 1 && (!dfa_accepting(t) ==> dfa_depth(t) <= 3),
-{}
-
-pub struct DFAStateInfo { pub is_accepting: bool }
-pub struct Utf8Dfa {}
-impl Utf8Dfa {
-    #[verifier::external_body]
-    fn start(&self) -> (r: DFAState) ensures r == dfa_start() { unimplemented!() }
-    #[verifier::external_body]
-    fn transition(&self, s: DFAState, b: u8) -> (r: Option<DFAState>) ensures r == dfa_delta(s, b) { unimplemented!() }
-    #[verifier::external_body]
-    fn info(&self, s: DFAState) -> (r: DFAStateInfo) ensures r.is_accepting == dfa_accepting(s) { unimplemented!() }
-}
-pub const UTF8DFA: Utf8Dfa = Utf8Dfa {};
-
-// utf8_decode (contract proved in unit numdec): here only "a function of the bytes"
-pub uninterp spec fn spec_utf8_decode(bytes: Seq<u8>) -> char;
-#[verifier::external_body]
-fn utf8_decode(bytes: &[u8]) -> (r: char) ensures r == spec_utf8_decode(bytes@) { unimplemented!() }
-
-// N6: the generic source `B: BufRead` is instantiated with the one the io::Write adapters use, `io::Cursor<&[u8]>`,
-// specified by its contract: fill_buf lends all remaining bytes, consume(n) advances by n
-#[verifier::external_body]
-pub struct ByteCursor<'a> { inner: std::io::Cursor<&'a [u8]> }
-impl<'a> ByteCursor<'a> {
-    pub uninterp spec fn rest(&self) -> Seq<u8>;
-    #[verifier::external_body]
-    // (Cursor::fill_buf does not change the cursor; the stand-in says so by taking `&self`, which also lets the loop
-    // invariant below mention the cursor while the lent slice is alive)
-    fn fill_buf(&self) -> (r: Result<&[u8], std::io::Error>)
-        ensures r matches Ok(s) && s@ == self.rest(),
-    { unimplemented!() }
-    #[verifier::external_body]
-    fn consume(&mut self, n: usize)
-        requires n <= old(self).rest().len(),
-        ensures final(self).rest() == old(self).rest().skip(n as int),
-    { std::io::BufRead::consume(&mut self.inner, n) }
-}
-
-// N9: the error value is built by an opaque constructor
-#[verifier::external_body]
-fn utf8_error() -> (e: std::io::Error) { std::io::Error::new(std::io::ErrorKind::InvalidInput, "utf8 decoder failed") }
-
-//@ item struct Utf8Decoder
-
-// ---------------------------------------------------------------- specification: the decoder as a byte-wise fold
-pub struct DecSt { pub state: DFAState, pub buf: Seq<u8> }
-pub enum Out { More, Invalid, Char(char) }
-
-pub open spec fn st_reset() -> DecSt { DecSt { state: dfa_start(), buf: Seq::empty() } }
-
-// one byte
-pub open spec fn step(st: DecSt, b: u8) -> (DecSt, Out) {
-    match dfa_delta(st.state, b) {
-        None => (st_reset(), Out::Invalid),
-        Some(t) => if dfa_accepting(t) { (st_reset(), Out::Char(spec_utf8_decode(st.buf.push(b)))) }
-                   else { (DecSt { state: t, buf: st.buf.push(b) }, Out::More) },
-    }
-}
-
-// bytes up to and including the first one that produces something: (state after, bytes consumed, what was produced)
-pub open spec fn run(st: DecSt, bytes: Seq<u8>) -> (DecSt, nat, Out)
-    decreases bytes.len(),
-{
-    if bytes.len() == 0 { (st, 0, Out::More) } else {
-        let (s1, o) = step(st, bytes[0]);
-        if o is More { let (s2, n, o2) = run(s1, bytes.skip(1)); (s2, n + 1, o2) } else { (s1, 1, o) }
-    }
-}
-
-// chunk independence, part 1: a chunk that produced nothing leaves a state from which the next chunk continues
-// exactly as if the two had been one buffer
-pub proof fn lemma_run_concat_more(st: DecSt, a: Seq<u8>, b: Seq<u8>)
-    requires run(st, a).2 is More,
-    ensures
-        run(st, a).1 == a.len(),
-        run(st, a + b) == (run(run(st, a).0, b).0, a.len() + run(run(st, a).0, b).1, run(run(st, a).0, b).2),
-    decreases a.len(),
-{
-    if a.len() == 0 {
-        assert(a + b =~= b);
-    } else {
-        let (s1, o) = step(st, a[0]);
-        assert((a + b)[0] == a[0]);
-        assert((a + b).skip(1) =~= a.skip(1) + b);
-        lemma_run_concat_more(s1, a.skip(1), b);
-    }
-}
-
-// chunk independence, part 2: what a chunk produced does not depend on the bytes that follow it
-pub proof fn lemma_run_concat_out(st: DecSt, a: Seq<u8>, b: Seq<u8>)
-    requires !(run(st, a).2 is More),
-    ensures run(st, a + b) == run(st, a),
-    decreases a.len(),
-{
-    if a.len() > 0 {
-        let (s1, o) = step(st, a[0]);
-        assert((a + b)[0] == a[0]);
-        assert((a + b).skip(1) =~= a.skip(1) + b);
-        if o is More { lemma_run_concat_out(s1, a.skip(1), b); }
-    }
-}
-
-impl Utf8Decoder {
-    pub closed spec fn view_st(&self) -> DecSt { DecSt { state: self.state, buf: self.buffer@.subrange(0, self.offset as int) } }
-    pub closed spec fn wf(&self) -> bool { self.offset <= 3 && self.offset == dfa_depth(self.state) }
-
-    //@ fn impl Utf8Decoder :: new ret=r
-    //@+ ensures r.wf(), r.view_st().state == dfa_start(), r.view_st().buf =~= Seq::<u8>::empty(),
-    //@proof start proof { axiom_dfa_depth(dfa_start(), 0u8); }
-
-    //@ fn impl Utf8Decoder :: reset
-    //@+ ensures final(self).wf(), final(self).view_st().state == dfa_start(), final(self).view_st().buf =~= Seq::<u8>::empty(),
-    //@proof start proof { axiom_dfa_depth(dfa_start(), 0u8); }
-
-    //@ fn impl Utf8Decoder :: push
-    //@+ requires old(self).offset < 4,
-    //@+ ensures final(self).state == old(self).state, final(self).offset == old(self).offset + 1,
-    //@+     final(self).buffer@.subrange(0, final(self).offset as int) == old(self).buffer@.subrange(0, old(self).offset as int).push(byte),
-
-    //@ fn impl Utf8Decoder :: consume ret=r
-    //@+ requires old(self).offset <= 4,
-    //@+ ensures r == spec_utf8_decode(old(self).buffer@.subrange(0, old(self).offset as int)), final(self).wf(), final(self).view_st().state == dfa_start(), final(self).view_st().buf =~= Seq::<u8>::empty(),
-    //@subst N13 sub-slice of the buffer array made explicit /utf8_decode\(&self\.buffer\[\.\.self\.offset\]\)/utf8_decode(slice_to(&self.buffer, self.offset))/
-
-    //@ fn impl Decoder for Utf8Decoder :: decode ret=r
-    //@+ requires old(self).wf(),
-    //@+ ensures
-    //@+     final(self).wf(),
-    //@+     // the call is the byte-wise fold `run` over everything the cursor still holds: it stops after the first byte that
-    //@+     // completes a character or is invalid, leaves the decoder in the fold's state, and consumes exactly those bytes
-    //@+     final(self).view_st() == run(old(self).view_st(), old(buf).rest()).0,
-    //@+     final(buf).rest() == old(buf).rest().skip(run(old(self).view_st(), old(buf).rest()).1 as int),
-    //@+     match run(old(self).view_st(), old(buf).rest()).2 { Out::More => r matches Ok(None), Out::Invalid => r is Err, Out::Char(c) => r matches Ok(Some(x)) && x == c },
-    //@subst N13 the temporary slice lent by fill_buf is given a name /for byte in( \w+:)? buf\.fill_buf\(\)\?\.iter\(\)/let chunk = buf.fill_buf()?; for byte in\1 chunk.iter()/
-    //@forit 1 it
-    //@proof start let ghost st0 = old(self).view_st(); let ghost all = old(buf).rest();
-    //@proof before:/for\sbyte\sin/ proof { assert(all.skip(0) =~= all); }
-    //@loop 1 invariant
-    //@loop 1     st0 == old(self).view_st(), all == old(buf).rest(),
-    //@loop 1     self.wf(), chunk@ == all, buf.rest() == all, chunk@.len() == chunk.len(), consume == it.index@, it.index@ <= all.len(),
-    //@loop 1     run(st0, all) == (run(self.view_st(), all.skip(it.index@ as int)).0, run(self.view_st(), all.skip(it.index@ as int)).1 + it.index@ as nat, run(self.view_st(), all.skip(it.index@ as int)).2),
-    //@proof loop1.start let ghost cur = self.view_st(); let ghost i = it.index@ as int; proof { axiom_dfa_depth(self.state, *byte); assert(it.index@ < all.len()); assert(*byte == all[it.index@ as int]); assert(all.skip(it.index@ as int)[0] == all[it.index@ as int]); assert(all.skip(it.index@ as int).skip(1) =~= all.skip(it.index@ as int + 1)); }
-    //@proof before:/buf\.consume\(consume\);\s*Ok\(None\)/ proof { assert(consume == all.len()); assert(buf.rest() == all); }
-    //@proof after:/self\.state\s=\sstate;/ proof { assert(!dfa_accepting(state)); assert(self.offset == dfa_depth(state)); assert(self.offset <= 3); }
-    //@proof before:/return\sErr/ proof { assert(self.view_st() =~~= st_reset()); }
-    //@subst N6 generic `B: BufRead` instantiated with the cursor stand-in /fn decode<B: BufRead>\(&mut self, mut buf: B\)/fn decode(&mut self, buf: &mut ByteCursor)/
-    //@subst N5 associated types of the dropped trait impl spelled out /Result<Option<Self::Item>, Self::Error>/Result<Option<char>, std::io::Error>/
-    //@subst N9 error value built by an opaque constructor /use std::io::\{Error, ErrorKind\};//
-    //@subst N9 error value built by an opaque constructor /Error::new\(ErrorKind::InvalidInput, "utf8 decoder failed"\)/utf8_error()/
-}
-
-#[verifier::external_body]
-fn slice_to<'a>(a: &'a [u8; 4], n: usize) -> (r: &'a [u8])
-    requires n <= 4,
-    ensures r@ == a@.subrange(0, n as int),
-{ &a[..n] }
+//@ include utf8_model.inc
 
 } // verus!
 
